@@ -10,6 +10,7 @@ usage: rewrite_test.py [T0,T1,...]   (default: all)
   T4  keyword arguments of calls reordered (reversed)
   T5  methods of every class sorted by name
   T6  operands of == / != swapped
+  T8  statement-level list comprehensions inside functions expanded to loops with append
   T7  `if not c: A else: B` rewritten to `if c: B else: A` (statements and conditional expressions)
 
 Each variant is written to a scratch worktree under /tmp (removed afterwards), the pinned baseline is run on it (the
@@ -208,7 +209,55 @@ class T7(ast.NodeTransformer):
         return n
 
 
-TRANSFORMS = {'T0': None, 'T1': T1, 'T2': T2, 'T3': T3, 'T4': T4, 'T5': T5, 'T6': T6, 'T7': T7}
+class T8(ast.NodeTransformer):
+    """inside functions: `x = [E for t in XS]` / `return [E for t in XS]` (one generator, no filter) expanded to a loop
+    with append"""
+    counter = 0
+
+    def _expand(self, comp):
+        T8.counter += 1
+        name = 'collected_%d' % T8.counter
+        g = comp.generators[0]
+        init = ast.Assign(targets=[ast.Name(id=name, ctx=ast.Store())], value=ast.List(elts=[], ctx=ast.Load()), lineno=0)
+        loop = ast.For(target=g.target, iter=g.iter, orelse=[], lineno=0, body=[
+            ast.Expr(value=ast.Call(func=ast.Attribute(value=ast.Name(id=name, ctx=ast.Load()), attr='append', ctx=ast.Load()),
+                                    args=[comp.elt], keywords=[]))])
+        return name, [init, loop]
+
+    @staticmethod
+    def _simple(v):
+        return isinstance(v, ast.ListComp) and len(v.generators) == 1 and not v.generators[0].ifs \
+            and not v.generators[0].is_async and not any(isinstance(x, (ast.Lambda, ast.ListComp, ast.GeneratorExp, ast.NamedExpr))
+                                                         for x in ast.walk(v.elt))
+
+    def _block(self, stmts):
+        out = []
+        for s in stmts:
+            if isinstance(s, ast.Return) and self._simple(s.value):
+                name, pre = self._expand(s.value)
+                out += pre + [ast.Return(value=ast.Name(id=name, ctx=ast.Load()))]
+            elif isinstance(s, ast.Assign) and self._simple(s.value):
+                name, pre = self._expand(s.value)
+                out += pre + [ast.Assign(targets=s.targets, value=ast.Name(id=name, ctx=ast.Load()), lineno=0)]
+            else:
+                out.append(s)
+        return out
+
+    def _fn(self, n):
+        self.generic_visit(n)
+        for node in ast.walk(n):
+            if isinstance(node, (ast.ClassDef, ast.Lambda)):
+                continue
+            for f in ('body', 'orelse', 'finalbody'):
+                v = getattr(node, f, None)
+                if isinstance(v, list) and v and isinstance(v[0], ast.stmt) and not isinstance(node, ast.ClassDef):
+                    setattr(node, f, self._block(v))
+        return n
+
+    visit_FunctionDef = visit_AsyncFunctionDef = _fn
+
+
+TRANSFORMS = {'T8': T8, 'T0': None, 'T1': T1, 'T2': T2, 'T3': T3, 'T4': T4, 'T5': T5, 'T6': T6, 'T7': T7}
 
 
 def rewrite_tree(root, tname):
